@@ -39,6 +39,7 @@ REVERT_TARGETS = {
     "cc948ef": ["C04", "C01", "C08"], "e8ae21e": ["C19"],
     "6a3ced7": ["C12"], "67af9ac": ["C10"], "eebcfb0": ["C05", "C07"], "c1878bd": ["C09"], "1a3c814": ["C12"],
     "c4d5923": ["C13"], "e9ed4ba": ["C14"], "390e6aa": ["C15"], "f25e054": ["C17"],
+    "5ac2267": ["C20"], "6d82922": ["C16"], "be25ea4": ["C07"],
 }
 
 
